@@ -147,9 +147,8 @@ func (m *MoovBox) RemovePsshs() []*PsshBox {
 
 func (m *MoovBox) GetSinf(trackID uint32) *SinfBox {
 	for _, trak := range m.Traks {
-		if trak.Tkhd.TrackID == trackID {
-			stsd := trak.Mdia.Minf.Stbl.Stsd
-			sd := stsd.Children[0] // Get first (and only)
+		if trak.Tkhd != nil && trak.Tkhd.TrackID == trackID {
+			sd := trak.firstSampleEntry() // Get first (and only)
 			switch box := sd.(type) {
 			case *VisualSampleEntryBox:
 				return box.Sinf
@@ -161,12 +160,21 @@ func (m *MoovBox) GetSinf(trackID uint32) *SinfBox {
 	return nil
 }
 
+// firstSampleEntry returns the first child of stsd, or nil if trak lacks the mdia/minf/stbl/stsd chain
+// or stsd is empty.
+func (t *TrakBox) firstSampleEntry() Box {
+	if t.Mdia == nil || t.Mdia.Minf == nil || t.Mdia.Minf.Stbl == nil || t.Mdia.Minf.Stbl.Stsd == nil ||
+		len(t.Mdia.Minf.Stbl.Stsd.Children) == 0 {
+		return nil
+	}
+	return t.Mdia.Minf.Stbl.Stsd.Children[0]
+}
+
 // IsEncrypted returns true if SampleEntryBox is "encv" or "enca"
 func (m *MoovBox) IsEncrypted(trackID uint32) bool {
 	for _, trak := range m.Traks {
-		if trak.Tkhd.TrackID == trackID {
-			stsd := trak.Mdia.Minf.Stbl.Stsd
-			sd := stsd.Children[0] // Get first (and only)
+		if trak.Tkhd != nil && trak.Tkhd.TrackID == trackID {
+			sd := trak.firstSampleEntry() // Get first (and only)
 			switch box := sd.(type) {
 			case *VisualSampleEntryBox:
 				return box.Type() == "encv"
